@@ -25,7 +25,7 @@ import p_schema as PS
 import translate_re as TR
 from codec import M, sansldap
 
-LEAN_TARGETS = ["Verif.Props.C18", "Verif.Props.C18Filter", "Verif.Props.C18Recv", "Verif.Props.C18Decode", "Verif.Props.TiesSchema", "Verif.Props.SmallMore"]
+LEAN_TARGETS = ["Verif.Props.C18", "Verif.Props.C18Filter", "Verif.Props.C18Steps", "Verif.Props.C18Recv", "Verif.Props.C18Decode", "Verif.Props.TiesSchema", "Verif.Props.SmallMore"]
 LEVEL = "proof"
 ASSUMPTIONS = [
     "the running time of CPython's re engine on an input is at most a constant times the size of the backtracking search tree (Re.work)",
@@ -47,6 +47,7 @@ class StepBudget(BaseException):
 
 
 PARSER_FUNCS = ("_unpack_filter", "_unpack_complex_filter", "_unpack_simple_filter")
+STEP_FACTOR = 12
 
 
 def step_bound(n):
@@ -116,6 +117,7 @@ def filter_cost_inputs(rng, ctx):
         t = PF.sentence(rng, f)
         out.append(t)
         out.append(PF.mutate(rng, t))
+    out += PF.FIXED_TEXTS      # incl. whitespace other than U+0020 at every structural position
     return [t for t in out if len(t) <= 400]
 
 
@@ -316,6 +318,7 @@ def run(ctx):
     # ---------------- 4. hand-written filter parser: call-count correspondence with the counting model, step counts against the quadratic bound
     ftexts = filter_cost_inputs(rng, ctx)
     creq = []
+    sreq = []
     for t in ftexts:
         n = len(t.strip().encode("utf-8", errors="surrogateescape"))
         steps, calls, out = count_steps(lambda: sansldap.LDAPFilter.from_string(t), step_bound(n))
@@ -331,6 +334,7 @@ def run(ctx):
             continue
         if all(f in calls or True for f in PARSER_FUNCS) and any(f in calls for f in PARSER_FUNCS) and out != "RecursionError" and t.count("(") < 150:
             creq.append(({"op": "fparsec", "cps": [ord(c) for c in t]}, sum(calls[f] for f in PARSER_FUNCS), out == "ok", t))
+            sreq.append(({"op": "fparsesteps", "cps": [ord(c) for c in t]}, steps, t))
     if ctx.driver_ok and creq:
         got = drive.run_model([q for q, _, _, _ in creq])
         for (q, pycalls, pyok, t), g in zip(creq, got):
@@ -344,6 +348,24 @@ def run(ctx):
                 if len(disagreements) > 10:
                     break
         hist["calls:compared"] = len(creq)
+    if ctx.driver_ok and sreq:
+        # the step-counting model (Model/FilterSteps.lean; Props/C18Steps.lean: the parser's own scan steps are at most 2(N+1)+32(n+1), LINEAR in
+        # the input) carries over to the implementation with a constant factor: on the unchanged tree the executed source lines are at most
+        # 5 x the model's scan steps; more than 12 x + 200 is work the model cannot account for
+        got = drive.run_model([q for q, _, _ in sreq])
+        worst = 0.0
+        for (q, pysteps, t), g in zip(sreq, got):
+            scan = g.get("scan")
+            if not isinstance(scan, int):
+                continue
+            worst = max(worst, pysteps / (scan + 1))
+            if pysteps > STEP_FACTOR * scan + 200:
+                disagreements.append({"what": f"the filter parser executes more than {STEP_FACTOR} x the source lines the step-counting model (Model/FilterSteps.lean, "
+                                      "proved linear) accounts for", "text": t, "python_lines": pysteps, "model": g})
+                if len(disagreements) > 10:
+                    break
+        hist["steps:compared-with-model"] = len(sreq)
+        hist["steps:max-lines-per-model-step-x100"] = int(worst * 100)
     # receive: the number of unpack_ldap_message calls on a buffer against the counting model of the parse loop (Model/RecvCost.lean)
     rreq = []
     o = M.PackingOptions()
